@@ -2,6 +2,8 @@
    extracted from coq/Gen/Gen_brc.v (Gen_brc.brc_inc / brc_dec / brc_value / brc_reversed_value / brc_high_bit)
    and writes the same kind of lines:
        r                                   fresh counter {m_nCounter = 0; m_nReversed = 0; m_nHighBit = -1}
+       s <counter> <reversed> <hb>         the state is set to these three members (teleport scenarios; the
+                                           numbers of this line ARE read, and echoed from the model's record)
        i <slot> <counter> <reversed> <hb>  /  d <slot> <counter> <reversed> <hb>
    Only the first character of every input line is read (the operation); everything printed comes from the model.
    "UB" replaces the numbers when the model evaluates to None (undefined behaviour / out of fuel); the state is
@@ -28,6 +30,14 @@ let () =
       if String.length line > 0 then begin
         match line.[0] with
         | 'r' -> st := init; output_string oc "r\n"
+        | 's' ->
+          (match Stdlib.List.filter (fun t -> t <> "") (String.split_on_char ' ' line) with
+           | [_; c; r; h] ->
+             st := { Gen_brc.brc_m_nCounter = Cxx2v_rt.z_of_hex c; Gen_brc.brc_m_nReversed = Cxx2v_rt.z_of_hex r;
+                     Gen_brc.brc_m_nHighBit = Cxx2v_rt.z_of_hex h };
+             output_string oc ("s " ^ obs Gen_brc.brc_value !st ^ " " ^ obs Gen_brc.brc_reversed_value !st ^ " "
+                               ^ obs Gen_brc.brc_high_bit !st ^ "\n")
+           | _ -> output_string oc ("? " ^ line ^ "\n"))
         | ('i' | 'd') as op ->
           let res = if op = 'i' then Gen_brc.brc_inc fuel !st else Gen_brc.brc_dec fuel !st in
           (match res with
